@@ -228,6 +228,18 @@ def _fuzz_stop(tier):
                   'by the iteration has exited (2 s grace)' % (60 if tier == 'quick' else 600, seed))
 
 
+def _fuzz_laws(tier):
+    import os
+    from harness import fuzz_pipelines
+    seed = int(os.environ.get('VERIF_SEED', '0') or 0)
+    c, f = fuzz_pipelines.search_laws(tier, seed)
+    return c, f, ('%d random law instances (seed %d): a random pipeline of 0..3 operations as the operand of one of 12 laws (map fusion; map over '
+                  'slice / index list / shuffle / sort / concatenation / cache / batch; nested slices; concatenate(split(k)); tile(2); '
+                  'batch(b).unbatch(); filter vs increasing selection), the same 0..2 random operations on top of both sides, complete '
+                  'observation of both (refusals normalised; the uniqueness policy of keys() and listed finding F28 left out)'
+                  % (200 if tier == 'quick' else 2000, seed))
+
+
 EXTRA_FUZZ = [('bounded-pipeline-fuzz', _fuzz)]
 
 _KEYLESS = ('bounded-keyless-snapshots', _mk('keyless_snapshots', '28 stage constructions over list-backed (key-less) inputs of 0,1,3 (0..4) examples: items() is refused with ItemsNotDefined (never another exception), from_dataset(ds) and new(ds) deliver the examples of one iteration'))
@@ -273,7 +285,7 @@ def _shuffle_for(c13):
     return run
 
 
-EXTRA = {'C16': [('bounded-laws', _laws)], 'C08': [('bounded-demand', _effects), ('bounded-demand-fuzz', _fuzz_demand)], 'C17': [('bounded-bucket-iter', _bucket)],
+EXTRA = {'C16': [('bounded-laws', _laws), ('bounded-law-fuzz', _fuzz_laws)], 'C08': [('bounded-demand', _effects), ('bounded-demand-fuzz', _fuzz_demand)], 'C17': [('bounded-bucket-iter', _bucket)],
          'C12': [('bounded-shuffles', _shuffle_for(False)), _VIEWS], 'C13': [('bounded-seed-determinism', _shuffle_for(True))]}
 
 
